@@ -1742,6 +1742,29 @@ pub mod verif_hooks {
         true
     }
 
+    /// What the `PutRecordToPeers` command does (same peer filter); the query is driven by `drive`.
+    pub fn start_put_record_to_peers(kernel: &mut Kernel, key: Vec<u8>, value: Vec<u8>, peers: Vec<PeerId>, quorum: Quorum) -> QueryId {
+        let kademlia = &mut kernel.kademlia;
+        let query_id = kademlia.next_query_id();
+        let mut record = Record::new(RecordKey::from(key), value);
+        record.expires = Some(Instant::now() + kademlia.record_ttl);
+        let peers = peers
+            .into_iter()
+            .filter_map(|peer| {
+                if peer == kademlia.service.local_peer_id() {
+                    return None;
+                }
+                match kademlia.routing_table.entry(Key::from(peer)) {
+                    KBucketEntry::Occupied(entry) => Some(entry.clone()),
+                    KBucketEntry::Vacant(entry) if !entry.address_store.is_empty() => Some(entry.clone()),
+                    _ => None,
+                }
+            })
+            .collect();
+        kademlia.engine.start_put_record_to_peers(query_id, record, peers, quorum);
+        query_id
+    }
+
     pub fn dial_failure(kernel: &mut Kernel, peer: PeerId, address: Multiaddr) {
         kernel.kademlia.on_dial_failure(peer, vec![address]);
     }
@@ -1752,6 +1775,7 @@ pub mod verif_hooks {
         while let Ok(event) = kernel.event_rx.try_recv() {
             match event {
                 KademliaEvent::FindNodeSuccess { query_id, .. } => out.push((query_id, true)),
+                KademliaEvent::PutRecordSuccess { query_id, .. } => out.push((query_id, true)),
                 KademliaEvent::QueryFailed { query_id } => out.push((query_id, false)),
                 _ => {}
             }
